@@ -12,5 +12,5 @@ CONFIG = dict(
     assumptions=["forking validators hold < 1/3 of the weight"],
     units=[dict(test="TestC02Delivery", quick=1800, thorough=96000, shards=16),
            # the rare large shapes: one block confirming 700-1200 events, 65-70 validators, 66-70 same-seq events
-           dict(test="TestC02Shapes", quick=12, thorough=640, shards=16)],
+           dict(test="TestC02Shapes", quick=16, thorough=640, shards=16)],
 )
